@@ -608,6 +608,9 @@ func (c *Ctx) registryLengthRulesOf(r *Report, rule string, which int, floor int
 			if row.Hash != "" && di.Hash != row.Hash {
 				bad = append(bad, "hash "+di.Hash+", RFC "+row.Hash)
 			}
+			if di.KeyArg != "" {
+				bad = append(bad, di.KeyArg)
+			}
 			if rs.TType != 2 && di.Guard != row.KeyLen {
 				bad = append(bad, fmt.Sprintf("key-length guard %d, RFC %d", di.Guard, row.KeyLen))
 			}
